@@ -183,7 +183,7 @@ Qed.
 
 Lemma e2_tle_add : forall id x ts off se, e2_tle x (wm_ts_add id x ts off se).
 Proof.
-  intros id x ts off se. unfold wm_ts_add. destruct (wm_ts_dec (wm_tx_ts x) <=? 1); [apply e2_ble_fault|].
+  intros id x ts off se. unfold wm_ts_add. generalize wm_level_count. intro fu. destruct (wm_ts_dec (wm_tx_ts x) <=? 1); [apply e2_ble_fault|].
   destruct (wm_ts_get _ 1) as [lv|]; [|apply e2_ble_fault].
   match goal with |- context [if ?c then _ else _] => destruct c end; [|apply e2_ble_refl].
   match goal with |- e2_tle _ (wm_ts_commit ?f ?i ?c ?l ?y) => exact (e2_tle_commit f i c l y) end.
@@ -231,7 +231,7 @@ Qed.
 
 Lemma e2_fle_summary1 : forall d pos samples x, e2_fle x (wm_fsr_summary1 summ1 summN d pos samples x).
 Proof.
-  intros d pos samples x. unfold wm_fsr_summary1.
+  intros d pos samples x. unfold wm_fsr_summary1. generalize wm_level_count. intro fu.
   destruct (wm_f_get_level _ 1) as [dst|]; [|apply e2_ble_fault].
   match goal with |- context [if ?c then _ else _] => destruct c end; [|apply e2_ble_refl].
   match goal with |- e2_fle _ (wm_fsr_wr_summary _ ?f ?d ?l ?y) => exact (e2_fle_wr_summary f d l y) end.
@@ -250,8 +250,9 @@ Qed.
 
 Lemma e2_fle_summary_close : forall d x level, e2_fle x (wm_fsr_summary_close summN d x level).
 Proof.
-  intros d x level. unfold wm_fsr_summary_close. destruct (wm_f_get_level (wm_fx_fsr x) level); [|apply e2_ble_refl].
-  unfold e2_fle. cbn [wm_fx_set_fsr wm_fx_base]. apply e2_fle_wr_summary.
+  intros d x level. unfold wm_fsr_summary_close. generalize wm_level_count. intro fu.
+  destruct (wm_f_get_level (wm_fx_fsr x) level); [|apply e2_ble_refl].
+  apply (e2_fle_trans _ (wm_fsr_wr_summary summN fu d level x)); [apply e2_fle_wr_summary|apply e2_ble_refl].
 Qed.
 
 Lemma e2_fle_close : forall d x, e2_fle x (wm_fsr_close summ1 summN d x).
@@ -376,7 +377,8 @@ Proof.
   destruct (wm_raw_wr _ _ _) as [r1 h1]. destruct (wm_update_item_head r1 _ _) as [r2 dh]. cbn [fst] in H.
   match goal with |- context [wm_track_update ?b ?i ?t ?l ?p] => pose proof (e2_ble_track_update b i t l p) as H2; destruct (wm_track_update b i t l p) as [b1 t1] end.
   cbn [fst] in H2 |- *. unfold e2_sle. cbn [wm_put_sig wm_st_base].
-  eapply e2_ble_trans; [exact H|]. eapply e2_ble_trans; [exact H2|]. apply e2_tle_add.
+  apply (e2_ble_trans _ (wm_b_set_raw (wm_st_base st) r2)); [exact H|]. eapply e2_ble_trans; [exact H2|].
+  match goal with |- e2_ble _ (wm_tx_base (wm_ts_add ?i ?x ?k ?o ?e)) => exact (e2_tle_add i x k o e) end.
 Qed.
 
 Lemma e2_sle_annotation : forall st sig a, e2_sle st (fst (wm_api_annotation st sig a)).
